@@ -84,3 +84,33 @@ Theorem C20_promised_clauses_sound :
   (forall c h d, stmts_carry_b c h d = true -> stmts_promised_b c h d = true).
 Proof. exact (conj edges_promised_b_sound (conj edges_weaken stmts_weaken)). Qed.
 Print Assumptions C20_promised_clauses_sound.
+
+(* ---- seeded round 5: a drawing is determined by the HUGR and the options of that rendering ----
+   "independent of palette and name-qualification options except for colours and the extension prefix": whatever
+   renderings of one HUGR are made, in whatever order and under whatever options, any two made under equal options are
+   the same drawing - the model's render has no input besides the options and what it reads from the HUGR.  The
+   implementation has more (renderer objects, configuration objects, module state); the monitor evaluates
+   `determined_b` on sequences of renderings made around histories of creating / customising / using other renderers. *)
+Theorem C20_drawing_determined_by_hugr_and_options : forall t ls cs,
+  Determined (map (fun c => (c, render c t ls)) cs).
+Proof. exact render_determined. Qed.
+Print Assumptions C20_drawing_determined_by_hugr_and_options.
+Theorem C20_determined_clause_sound :
+  (forall a b, config_eqb a b = true <-> a = b) /\ (forall rs, determined_b rs = true <-> Determined rs).
+Proof. exact (conj config_eqb_eq (fun rs => conj (determined_b_sound rs) (determined_b_complete rs))). Qed.
+Print Assumptions C20_determined_clause_sound.
+
+(* renderer and configuration OBJECTS (model: `self.config = config or RenderConfig()`, configuration objects in a
+   heap, customisation through a renderer's public `config` writes into the cell it points to): for every history of
+   creating renderers (with or without a configuration), customising any of them and drawing, every drawing is the
+   drawing under the drawing renderer's OWN options - created-with, changed only by steps naming that renderer.
+   The variant with one module-level default configuration object (seeded change C20-i) is refuted in the model. *)
+Theorem C20_renderers_do_not_interfere : forall dflt t ls h,
+  hrun (fresh_default dflt) t ls {| hs_heap := []; hs_rend := [] |} h = own_draws dflt t ls [] h.
+Proof. exact renderers_do_not_interfere. Qed.
+Print Assumptions C20_renderers_do_not_interfere.
+Theorem C20_shared_default_config_refuted :
+  exists h, hrun module_default ex_tree (hv_links ex_view) {| hs_heap := [ex_cfg]; hs_rend := [] |} h
+            <> own_draws ex_cfg ex_tree (hv_links ex_view) [] h.
+Proof. exact shared_default_interferes. Qed.
+Print Assumptions C20_shared_default_config_refuted.
